@@ -182,7 +182,7 @@ def run_cli(sh, ctx):
 				ctx.violation('cli-fails', f'gambit query -f {fmt} exited {code}: {se[-200:]} {exc}', dict(world=w.describe()))
 				outs = None
 				break
-			outs[fmt] = o.read_text()
+			outs[fmt] = open(o, newline='').read()
 		if not outs:
 			continue
 		rows = list(csv.DictReader(io.StringIO(outs['csv'], newline='')))
